@@ -127,9 +127,11 @@ func (in *interp) checkAssert(fr *frame, as *a.Assert, where string) {
 }
 
 func (in *interp) execWhile(fr *frame, n *a.While) ctl {
+	line := fr.line
 	in.checkLoopAsserts(fr, n, t.IDPost, "entry")
 	for {
 		in.step()
+		fr.line = line
 		if !in.evalBool(fr, n.Condition()) {
 			in.checkLoopAsserts(fr, n, t.IDPre, "exit")
 			return ctlNext
@@ -593,6 +595,7 @@ func (in *interp) execIOManip(fr *frame, n *a.IOManip) ctl {
 		c := in.execBlock(fr, n.Body())
 		fr.manip = fr.manip[:len(fr.manip)-1]
 		*io, vr.io1 = saved, savedIO1
+		in.checkManipExit(fr, c, "io_bind")
 		return c
 
 	case t.IDIOLimit:
@@ -627,10 +630,20 @@ func (in *interp) execIOManip(fr *frame, n *a.IOManip) ctl {
 			fr.manip = fr.manip[:len(fr.manip)-1]
 			io.wi, io.closed = savedWI, savedClosed
 		}
+		in.checkManipExit(fr, c, "io_limit")
 		return c
 	}
 	unsupp("%s", n.Keyword().Str(in.p.tm))
 	return ctlNext
+}
+
+// checkManipExit: the generated C restores the I/O state at the closing brace
+// of an io_bind / io_limit block only; a return, break or continue that
+// leaves the block skips the restoration.
+func (in *interp) checkManipExit(fr *frame, c ctl, what string) {
+	if c != ctlNext {
+		in.event(Event{Prop: "C01", Kind: "jump-out-of-" + what, Node: fr.fn.recv.name + "." + fr.fn.name, Line: fr.line})
+	}
 }
 
 func (in *interp) writerAvail(io *ioState) int {
